@@ -244,6 +244,15 @@ ReloadClauses(ms, rl) ==
                 ELSE Only(rl[j].v.m = ms[j], "reload/rebuilt_module_identical")
                      \cup Only(rl[j].v.js, "reload/saved_form_identical") : j \in DOMAIN ms}
 
+(* the same through the saved results of a whole gene (the list of its modules as the results file holds it): every
+   module of the list comes back identical, whatever its place in the list *)
+ResultsReloadClauses(ms, rs) ==
+    Only(Len(rs) = Len(ms), "reload_results/one_per_module")
+    \cup UNION {IF j \notin DOMAIN rs THEN {}
+                ELSE IF rs[j].exc # "" THEN {"reload_results/no_exception:" \o rs[j].exc}
+                ELSE Only(rs[j].v.m = ms[j], "reload_results/rebuilt_module_identical")
+                     \cup Only(rs[j].v.js, "reload_results/saved_form_identical") : j \in DOMAIN ms}
+
 BuildClauses(inp, res, rl) ==
     IF res.exc # "" THEN {"build/no_exception:" \o res.exc}
     ELSE LET ms == res.v IN
